@@ -372,31 +372,29 @@ func (e *eng) reportUDPRT(c Case, obs rtObs) {
 	pre := "udp-deadline:" + c.Policy + ":"
 	if obs.Err != "" {
 		rep.Case(c.sig(), false)
-		if strings.Contains(obs.Err, "did not stop at its deadline") {
-			e.fail(c, pre+"probe-outlives-deadline", obs.Err)
-		} else {
-			rep.Diverge(common.Divergence{Engine: "udprt", Case: c, Impl: obs.Err, Model: "a group that runs"})
-		}
+		rep.Diverge(common.Divergence{Engine: "udprt", Case: c, Impl: obs.Err, Model: "a group that runs"})
 		return
 	}
 	if obs.Inconclusive != "" {
-		rep.Count("udprt:inconclusive(overloaded)")
+		// a timing anomaly of the machine, not an observation about the code
+		rep.Count("udprt:inconclusive(timing)")
+		rep.Note("udprt: case inconclusive, nothing asserted: %s", obs.Inconclusive)
 		rep.Case(c.sig(), false)
 		return
 	}
 	silent := 0
-	T := c.effTimeout()
-	for _, d := range obs.Durations {
-		a := c.Rounds[d.Round][d.Client]
-		if !a.OK && a.Mode == 3 {
-			silent++
-			if d.Ns < T-int64(20_000_000) {
-				e.fail(c, pre+"silent-probe-ends-early", fmt.Sprintf("round %d client %d: nothing answered, yet the probe ended after %d ns, the timeout is %d ns counted from the probe's own start", d.Round, d.Client, d.Ns, T))
+	for _, row := range c.Rounds {
+		for _, a := range row {
+			if !a.OK && a.Mode == 3 {
+				silent++
 			}
 		}
 	}
 	if silent > 0 {
 		rep.Count("udprt:cases-with-silent-probes")
+	}
+	if obs.Attempts > 1 {
+		rep.Count("udprt:cases-repeated")
 	}
 	rep.Case(c.sig(), silent > 0)
 	if obs.Initial != 0 {
@@ -410,13 +408,13 @@ func (e *eng) reportUDPRT(c Case, obs rtObs) {
 		if sel < 0 || sel >= c.N {
 			e.fail(c, pre+"non-member", fmt.Sprintf("after round %d the group hands out client %d", k, sel))
 		} else if !ok {
-			e.fail(c, pre+"not-best", fmt.Sprintf("after round %d (a silent client's probe ends at its deadline and counts as a failure / the timeout) the group hands out client %d; the statement allows %v", k, sel, obs.Allowed[k]))
+			e.fail(c, pre+"not-best", fmt.Sprintf("after round %d (a silent client's probe ends at its deadline and counts as a failure / the timeout) the group hands out client %d; the statement allows %v (reproduced on %d independent runs)", k, sel, obs.Allowed[k], obs.Attempts))
 			break
 		}
 	}
 	// the model on the same history: its choice must be among the allowed ones too (answering clients get latency 0)
 	if e.drv != nil {
-		lines := []string{fmt.Sprintf("new %s %d %d", modelPolicy[c.Policy], c.N, T)}
+		lines := []string{fmt.Sprintf("new %s %d %d", modelPolicy[c.Policy], c.N, c.effTimeout())}
 		for _, row := range c.Rounds {
 			toks := make([]string, c.N)
 			for i, a := range row {
@@ -458,7 +456,7 @@ func (e *eng) generateAndRun() error {
 	idx := uint64(0)
 	next := func() *common.Rng { idx++; return r.Fork(idx) }
 	// the real-time UDP cases run beside the fake-clock engines (they mostly sleep) and are reported at the end
-	nRT := o.Budget(6, 40)
+	nRT := o.Budget(3, 24)
 	if os.Getenv(onlyEnv) == "race" {
 		nRT = 4
 	}
